@@ -523,6 +523,14 @@ class Consumer(object):
 
     # # Private Methods # #
 
+    def _failure_reported(self):
+        """
+        Has the `Deferred` returned by `start()` already fired with an unrecoverable
+        failure? From then on nothing more is fetched, processed or automatically
+        committed until the application stops (and possibly restarts) the consumer.
+        """
+        return getattr(self._start_d, "called", False)
+
     def _retry_auto_commit(self, result, by_count=False):
         self._auto_commit(by_count)
         return result
@@ -534,6 +542,7 @@ class Consumer(object):
             self._stopping
             or self._shuttingdown
             or (not self._start_d)
+            or self._failure_reported()  # wait to be stopped
             or (self._last_processed_offset is None)
             or (not self.consumer_group)
             or (by_count and not self.auto_commit_every_n)
@@ -569,8 +578,8 @@ class Consumer(object):
         """
 
         # Have we been told to stop or shutdown?  Then don't actually retry.
-        if self._stopping or self._shuttingdown or self._start_d is None:
-            # Stopping, or stopped already? No more fetching.
+        if self._stopping or self._shuttingdown or self._start_d is None or self._failure_reported():
+            # Stopping, stopped already, or failed (start() Deferred errbacked)? No more fetching.
             return
         if self._retry_call is None:
             if after is None:
@@ -884,6 +893,12 @@ class Consumer(object):
         self.retry_delay = self.retry_init_delay
         self._fetch_attempt_count = 1
 
+        if self._failure_reported():
+            # An unrecoverable failure (e.g. of the processor) has been reported on the
+            # start() Deferred. Deliver nothing further; the application must stop us.
+            self._request_d = None
+            return
+
         # Check to see if we are still processing the last block we fetched...
         if self._msg_block_d:
             # We are still working through the last block of messages...
@@ -1006,6 +1021,10 @@ class Consumer(object):
                 break
             else:
                 yield d
+                if self._failure_reported():
+                    # The processor failed (reported via the start() Deferred): the remaining
+                    # blocks must not be processed, nor anything past the failure committed.
+                    break
                 proc_block_begin = proc_block_end
                 proc_block_end += proc_block_size
 
